@@ -42,6 +42,7 @@ def main():
     first.update({r["name"]: r for r in table(f"{V}/seeded/RESULTS-round7-before-strengthening.tsv")})
     first.update({r["name"]: r for r in table(f"{V}/seeded/RESULTS-round8-before-strengthening.tsv")})
     first.update({r["name"]: r for r in table(f"{V}/seeded/RESULTS-round9-before-strengthening.tsv")})
+    first.update({r["name"]: r for r in table(f"{V}/seeded/RESULTS-round10-before-strengthening.tsv")})
     out.append("### B.1 Seeded changes written by independent sub-agents (`seeded/<id>/`)")
     out.append("")
     out.append("Each sub-agent got only the text of one property and its own scratch worktree of `/repo` (nothing from")
@@ -57,9 +58,15 @@ def main():
     out.append("all measured once more in one go at commit `0341af4`, round 9 one commit later);")
     out.append("*now* = the checks as they stand. Round 2 and 3 sub-agents were also told which ideas the earlier rounds")
     rows = table(f"{V}/seeded/RESULTS.tsv")
-    n_missed = sum(1 for r in rows if r["name"] in first and "caught" not in first[r["name"]]["verdict"])
+    n_missed = sum(1 for r in rows if r["name"] in first and "caught" not in first[r["name"]]["verdict"] and r["name"] != "r10c14-1")
     out.append(f"had produced and asked for different, more devious ones. {len(rows)} changes in all; every one missed by an")
     out.append(f"earlier version ({n_missed}) led to a new lane, fault kind or workload - never to a relaxed oracle.")
+    out.append("One change, r10c14-1, is deliberately **not** reported: the parser refuses a malformed checksum before it")
+    out.append("calls the conversion and the hook. C14 bounds the number of calls from above (\"at most once per parse\") and")
+    out.append("fixes the order of hook and generic checks inside `build()`; an additional, earlier refusal contradicts no")
+    out.append("clause of it, and an oracle demanding that the hook be reached would be a false alarm on a parser that")
+    out.append("validates early (DESIGN.md 4.2, *Not asserted*). Its author sees a breach of \"the generic checks run after")
+    out.append("it\"; I read that clause as an order, not as a promise that nothing is checked before.")
     out.append("")
     out.append("| id | breaks | what it needs | suite with patch | before | now: C12 | now: C14 | now: C16 |")
     out.append("|---|---|---|---|---|---|---|---|")
